@@ -299,8 +299,10 @@ pub fn eval_with(path: &PathSpec, st: &StyleSpec, xf: &Xf, true_curve: bool) -> 
             dt.into_vec()
         })
         .map_err(|p| Violation::new("stroke_to_path/panic", case.clone(), p))?;
-        if r != got {
-            let i = (0..r.len()).find(|&i| r[i] != got[i]).unwrap();
+        // the property does not promise bit-identical pixels here (only C11's fill clause does):
+        // one coverage cell of difference per pixel is admitted
+        if (0..r.len()).any(|i| super::common::chan_diff(r[i], got[i]) > 17) {
+            let i = (0..r.len()).find(|&i| super::common::chan_diff(r[i], got[i]) > 17).unwrap();
             return Err(Violation::new("stroke/differs-from-fill-of-transformed-outline", case, format!("pixel ({},{}): stroke under the transform gives {:#010x}, NonZero fill of stroke_to_path(path).transform(T) under the identity gives {:#010x}", i as i32 % SURF, i as i32 / SURF, got[i], r[i])));
         }
     }
